@@ -398,6 +398,47 @@ fn judge_both(st: &mut Stats, text: &str) {
     }
 }
 
+/// Chains of HUNDREDS of rounds (more than an 8-bit counter holds): the walk through the first
+/// K = 2^n - 3 assignments of n = 8..10 variables, one per round. The least fixed point is the
+/// set of the K assignments visited (its complement for the dual); the engine must get there and
+/// must have needed at least K rounds.
+fn very_long_chains(ctx: &Ctx, st: &mut Stats) {
+    for n in ctx.tier.pick(vec![8usize], vec![8, 9, 10]) {
+        let names: Vec<String> = (0..n).map(|i| format!("w{}", i)).collect();
+        let minterm = |k: usize| -> String { format!("({})", (0..n).map(|i| if (k >> i) & 1 == 1 { names[i].clone() } else { format!("-{}", names[i]) }).collect::<Vec<_>>().join(" & ")) };
+        let all = names.join(", ");
+        let last = (1usize << n) - 3;
+        let steps: Vec<String> = (1..last).map(|k| format!("({} & exists {} # ({} & X))", minterm(k), all, minterm(k - 1))).collect();
+        let lfp = format!("lfp X # {} | {}", minterm(0), steps.join(" | "));
+        let dsteps: Vec<String> = (1..last).map(|k| format!("(-{} | forall {} # (-{} | X))", minterm(k), all, minterm(k - 1))).collect();
+        let gfp = format!("gfp X # -{} & {}", minterm(0), dsteps.join(" & "));
+        let mut visited = Tt::constant(n as u32, false);
+        for k in 0..last {
+            visited.set(k as u64, true);
+        }
+        for (text, want, kind) in [(lfp, visited.clone(), "lfp"), (gfp, visited.not(), "gfp")] {
+            st.evals += 1;
+            let case = || json!({"kind": "very-long-chain", "n": n, "which": kind});
+            match engine_eval(text.as_bytes(), None, 4_000_000_000, (last as u64) * 4 + 64) {
+                EngineOut::Ok(ev) => match tt_of_named(&ev.result, &names) {
+                    Ok(got) if got == want && ev.fp_iters + 2 >= last as u64 => {
+                        st.bump("very_long_chain_fixed_points");
+                        st.max("max_fixed_point_rounds", ev.fp_iters);
+                        st.nt.insert(mix(0xc4a1, n as u64 * 2 + (kind == "gfp") as u64));
+                    }
+                    Ok(got) if got == want => st.violate("c06.fixed-point", format!("C06:{}:rounds-not-counted", kind), format!("{} of a walk through {} assignments of {} variables: right answer after only {} rounds?", kind, last, n, ev.fp_iters), case()),
+                    Ok(got) => st.violate("c06.fixed-point", format!("C06:{}:long-chain-wrong-value", kind), format!("{} of a walk through {} assignments of {} variables (one per round): the answer covers {} assignments, the fixed point covers {} ({} rounds)", kind, last, n, got.count_ones(), want.count_ones(), ev.fp_iters), case()),
+                    Err(e) => st.violate("c06.scope", "C06:foreign-variable".into(), format!("very long {} chain over {} variables: {}", kind, n, e), case()),
+                },
+                EngineOut::EvalCaught(_, Caught::Budget("steps")) => st.bump("step_budget_exceeded(inconclusive case)"),
+                EngineOut::EvalCaught(_, Caught::Budget(_)) => st.violate("c06.terminates", "C06:does-not-terminate-within-lattice-bound".into(), format!("very long {} chain over {} variables: more than {} rounds", kind, n, last * 4 + 64), case()),
+                EngineOut::Rejected(e) => st.violate("c06.accept", "C06:rejects-well-formed".into(), format!("very long {} chain over {} variables rejected: {}", kind, n, e), case()),
+                EngineOut::EvalCaught(_, c) | EngineOut::ParsePanic(c) => st.violate("c06.panic", format!("C06:{}", c.signature()), format!("very long {} chain over {} variables: {:?}", kind, n, c), case()),
+            }
+        }
+    }
+}
+
 pub fn run(ctx: &Ctx) -> (Stats, Spec) {
     let mut st = Stats::new();
     let parts = util::par_jobs(32, |job| exhaustive_job(job, 32));
@@ -417,6 +458,7 @@ pub fn run(ctx: &Ctx) -> (Stats, Spec) {
         check_fix_text(&mut st, t, "readme-and-scoping");
     }
     both_kinds(ctx, &mut st);
+    very_long_chains(ctx, &mut st);
     // LONG chains: the iteration walks through the assignments one per round (2^n rounds over n
     // variables — far more than the number of variables or names of the formula)
     for n in ctx.tier.pick(vec![3usize, 4], vec![2, 3, 4, 5]) {
@@ -435,7 +477,7 @@ pub fn run(ctx: &Ctx) -> (Stats, Spec) {
         }
     }
     let spec = Spec {
-        rule: "bodies from a polarity-tracking generator (X under and/or/ite branches/quantifiers/at-least counting/left list of >=/even negation; nested and mixed lfp/gfp up to depth 3; inner binders and quantifiers reusing the outer name; aliases mu/nu), every small tree as body, README identities, the least and the greatest fixed point of ONE body (same bound name) side by side in one formula, LONG chains (the fixed point of a walk through all 2^n assignments of 3-4 [quick] / 2-5 [thorough] variables, one per round, and its dual). For each: ALL functions over the other names (<= 3 names: 256 candidates; 4 names: 4096 sampled) are enumerated as competing (pre/post-)fixed points; the generated body's monotonicity is verified on all comparable pairs. API: fp(a, t) with random table-defined maps on the 16 functions of two variables whose orbit ends in a self-loop; the closure counts its applications and calls back into the environment; a quarter of the calls run in an environment whose symbol type has a constant Hash (every pair of same-shape diagrams collides), so that `mapped to itself` cannot be confused with `same hash`. distinct = text resp. (map, start); non-trivial = X occurs free, T depends on X and T has >= 2 fixed points.".into(),
+        rule: "bodies from a polarity-tracking generator (X under and/or/ite branches/quantifiers/at-least counting/left list of >=/even negation; nested and mixed lfp/gfp up to depth 3; inner binders and quantifiers reusing the outer name; aliases mu/nu), every small tree as body, README identities, the least and the greatest fixed point of ONE body (same bound name) side by side in one formula, LONG chains (the fixed point of a walk through all 2^n assignments of 3-4 [quick] / 2-5 [thorough] variables, one per round, and its dual; and chains of 253 [quick] / 253, 509, 1021 [thorough] rounds over 8-10 variables whose fixed point is known by construction). For each: ALL functions over the other names (<= 3 names: 256 candidates; 4 names: 4096 sampled) are enumerated as competing (pre/post-)fixed points; the generated body's monotonicity is verified on all comparable pairs. API: fp(a, t) with random table-defined maps on the 16 functions of two variables whose orbit ends in a self-loop; the closure counts its applications and calls back into the environment; a quarter of the calls run in an environment whose symbol type has a constant Hash (every pair of same-shape diagrams collides), so that `mapped to itself` cannot be confused with `same hash`. distinct = text resp. (map, start); non-trivial = X occurs free, T depends on X and T has >= 2 fixed points.".into(),
         assumptions: vec![
             "non-monotone or non-convergent bodies are never handed to the engine (it may legitimately loop; the README says so)".into(),
             "'evaluation terminates' is decided as: total fixed-point iterations <= 4 x the reference's count + 64 (a monotone chain cannot be longer than the lattice height)".into(),
@@ -448,6 +490,7 @@ pub fn run(ctx: &Ctx) -> (Stats, Spec) {
             ("inner_binder_reuses_outer_name".into(), 20, "shadowing by an inner fixed point never exercised".into()),
             ("fp_api_calls".into(), 1_000, "fp API never exercised".into()),
             ("long_chain_fixed_points".into(), 4, "long iteration chains never exercised".into()),
+            ("very_long_chain_fixed_points".into(), 2, "iteration chains of hundreds of rounds never exercised".into()),
             ("least_and_greatest_of_one_body".into(), 100, "lfp and gfp of one body side by side never exercised".into()),
             ("fp_api_calls_weak_hash_symbols".into(), 300, "fp over colliding hashes never exercised".into()),
         ],
